@@ -224,8 +224,20 @@ def run(job, seed):
     return acc.result()
 
 
+class _Fmt(__import__('logging').Handler):
+    def emit(self, record):
+        record.getMessage()
+
+
 def _row(acc, P, parse_rule, ruleset, cfg, route, via):
     w = world.FileWorld() if route.startswith(('file', 'dir')) else None
+    # one route runs with the library's debug logging switched on
+    debug = route == 'set_rules+own'
+    if debug:
+        import logging
+        lg = logging.getLogger('oslo_policy')
+        lg.handlers[:] = [_Fmt()]
+        lg.setLevel(logging.DEBUG)
     try:
         enf = build(P, parse_rule, ruleset, cfg, route, w)
         acc.case('table', bool(ruleset) and len(ruleset) < 3)
@@ -263,6 +275,8 @@ def _row(acc, P, parse_rule, ruleset, cfg, route, via):
                     'defined' if q in ruleset and q != 'via' else 'fallback',
                     'allow' if exp else 'deny'))
     finally:
+        if debug:
+            core.quiet_logging()
         if w:
             w.destroy()
 
